@@ -1,7 +1,6 @@
 package core
 
 import (
-	"errors"
 	"io"
 	"os"
 	"regexp"
@@ -33,6 +32,7 @@ type Keys struct {
 	keysOnce  chan []byte // Passing keys from the main routine.
 	cursor    chan []byte // Cursor coordinates has been read on stdin.
 	resize    chan bool   // Resize events on Windows are sent on stdin. USED IN WINDOWS
+	closed    error       // The input has ended or failed: no more keys will ever be read.
 
 	cfg   *inputrc.Config // Configuration file used for meta key settings
 	mutex sync.RWMutex    // Concurrency safety
@@ -68,7 +68,8 @@ func WaitAvailableKeys(keys *Keys, cfg *inputrc.Config) {
 		// We will either read keyBuf from user, or an EOF
 		// send by ourselves, because we pause reading.
 		keyBuf, err := keys.readInputFiltered()
-		if err != nil && errors.Is(err, io.EOF) {
+		if err != nil {
+			keys.closed = err
 			return
 		}
 
@@ -95,6 +96,12 @@ func WaitAvailableKeys(keys *Keys, cfg *inputrc.Config) {
 
 		return
 	}
+}
+
+// InputClosed returns the error (io.EOF or a read error) that ended the
+// input, or nil if the shell can still read keys.
+func InputClosed(keys *Keys) error {
+	return keys.closed
 }
 
 // PopKey is used to pop a key off the key stack without
@@ -225,7 +232,13 @@ func (k *Keys) ReadKey() (key rune, isAbort bool) {
 		buf := <-k.keysOnce
 		key = []rune(string(buf))[0]
 	default:
-		buf, _ := k.readInputFiltered()
+		buf, err := k.readInputFiltered()
+		if err != nil || len(buf) == 0 {
+			// No key will come: behave as if the command had been aborted.
+			k.closed = err
+			return inputrc.Esc, true
+		}
+
 		key = []rune(string(buf))[0]
 	}
 
